@@ -329,19 +329,28 @@ func (c *Client) Backup(ctx context.Context, br *command.BackupRequest, nodeAddr
 
 	// The backup stream is unconditionally compressed, so depending on whether
 	// the user requested compression, we may need to decompress the response.
-	var rc io.ReadCloser
-	rc = conn
-	if !br.Compress {
-		gzr, err := gzip.NewReader(conn)
-		if err != nil {
-			return err
-		}
-		gzr.Multistream(false)
-		rc = gzr
-		defer rc.Close()
+	// Either way the stream is read through a gzip reader: that is what finds
+	// the end of the stream, and what tells a complete stream from one that was
+	// cut short. If the user asked for compressed data the raw bytes are passed
+	// on as they are read and the decompressed data is discarded.
+	var src io.Reader = conn
+	dst := w
+	if br.Compress {
+		src = io.TeeReader(conn, w)
+		dst = io.Discard
 	}
-	_, err = io.Copy(w, rc)
-	return err
+	gzr, err := gzip.NewReader(src)
+	if err != nil {
+		handleConnError(conn)
+		return err
+	}
+	defer gzr.Close()
+	gzr.Multistream(false)
+	if _, err := io.Copy(dst, gzr); err != nil {
+		handleConnError(conn)
+		return err
+	}
+	return nil
 }
 
 // Load loads a SQLite file into the database. If creds is nil, then no
